@@ -81,6 +81,39 @@ Proof.
   - apply Z.mod_pos_bound. lia.
 Qed.
 
+(* ---- partial records: fewer than 13 bytes, or a header whose length field exceeds what follows *)
+Lemma decode_short buf : zlen buf < DTLS_HEADER_SIZE -> decode buf = Ok None.
+Proof. intros Hs. unfold decode. destruct (zlen buf <? DTLS_HEADER_SIZE) eqn:E; [reflexivity|apply Z.ltb_ge in E; lia]. Qed.
+
+Lemma decode_length_exceeds h0 h1 h2 h3 h4 h5 h6 h7 h8 h9 h10 h11 h12 tail ct :
+  content_type_of_u8 h0 = Some ct -> 0 <= h11 -> 0 <= h12 -> zlen tail < h11 * 256 + h12 ->
+  decode (h0 :: h1 :: h2 :: h3 :: h4 :: h5 :: h6 :: h7 :: h8 :: h9 :: h10 :: h11 :: h12 :: tail) = Ok None.
+Proof.
+  intros Hct H11 H12 Hl. rewrite (decode_header h0 h1 h2 h3 h4 h5 h6 h7 h8 h9 h10 h11 h12 tail ct Hct H11 H12).
+  cbv zeta. destruct (zlen tail <? h11 * 256 + h12) eqn:E; [reflexivity|apply Z.ltb_ge in E; lia].
+Qed.
+
+(* every strict prefix of a well-formed record -- what a receiver sees of a record that was truncated or split
+   across two datagrams -- is "need more bytes", for every cut position *)
+Lemma prefix_of_record_is_partial code ct major minor epoch seq payload n :
+  content_type_of_u8 code = Some ct -> zlen payload < 2 ^ 16 ->
+  (n < 13 + length payload)%nat ->
+  decode (firstn n ([code; major; minor] ++ be 2 epoch ++ be 6 seq ++ be 2 (zlen payload) ++ payload)) = Ok None.
+Proof.
+  intros Hct Hp Hn. pose proof (zlen_nonneg payload) as Hp0.
+  rewrite !be2_explicit. pose proof (be_length 6 seq) as HL.
+  destruct (be 6 seq) as [|s0 [|s1 [|s2 [|s3 [|s4 [|s5 [|? ?]]]]]]]; try discriminate.
+  cbn [app].
+  destruct (Nat.lt_ge_cases n 13) as [Hlt|Hge].
+  - apply decode_short. unfold zlen, DTLS_HEADER_SIZE. rewrite firstn_length. lia.
+  - replace n with (13 + (n - 13))%nat by lia. cbn [firstn plus].
+    change (firstn (13 + (n - 13)) ?l) with (firstn (13 + (n - 13)) l).
+    apply (decode_length_exceeds code major minor _ _ s0 s1 s2 s3 s4 s5 _ _ _ ct Hct).
+    + apply Z.mod_pos_bound. lia.
+    + apply Z.mod_pos_bound. lia.
+    + rewrite (be2_value (zlen payload)) by lia. unfold zlen. rewrite firstn_length. lia.
+Qed.
+
 Section Roundtrip.
   Variable seal : list Z -> list Z -> list Z -> list Z -> list Z.
   Variable open : list Z -> list Z -> list Z -> list Z -> option (list Z).
@@ -152,5 +185,17 @@ Section Roundtrip.
         apply open_seal. }
       rewrite Hopen. reflexivity. }
     rewrite Hstep. destruct (length D') as [|n]; cbn [records_fuel]; cbn [app andb]; reflexivity.
+  Qed.
+
+  (* replay of a genuine datagram, any number of times: each copy is delivered, the receiver never changes --
+     rustrtc's DTLS has no anti-replay window (RFC 6347 4.1.2.6 makes it optional; C03 does not ask for one) *)
+  Theorem replay_redelivers : forall (c : bool) (k : keys) epoch seq pt (st : rx H) (n : nat),
+    0 < epoch < 2 ^ 16 -> 0 <= seq < 2 ^ 48 -> zlen pt <= MAX_APP_DATA_RECORD_SIZE ->
+    rx_keys st = Some k -> rx_alive st = true ->
+    recv_all open H hs_step (negb c) st (repeat (tx_record seal (wkey c k) (wiv c k) epoch seq pt) n)
+    = (st, repeat pt n).
+  Proof.
+    intros c k epoch seq pt st n He Hs Hpt Hk Hal. induction n as [|n IH]; [reflexivity|].
+    cbn [repeat recv_all]. rewrite (genuine_delivered c k epoch seq pt st He Hs Hpt Hk Hal), IH. reflexivity.
   Qed.
 End Roundtrip.
